@@ -76,7 +76,9 @@ VALUE_OPTS = {"--strategy": ["minimize-around", "check-only", "minimize"], "--te
               "--tempdir": ["td"], "--min": ["2"], "--max": ["4"], "--repeat": ["always", "never"],
               "--chunk-size": ["2"], "--max-run-time": ["5"]}
 FLAGS = ["-c", "--char", "-l", "-j", "-s", "--attrs", "-v", "--repeat-first-round"]
-SUFFIX_TOKENS = ["-c", "-j", "--strategy=check-only", "--min", "--", "4", "--testcase", "x", "--char", "t.txt"]
+SUFFIX_TOKENS = ["-c", "-j", "--strategy=check-only", "--min", "--", "4", "--testcase", "x", "--char", "t.txt",
+                 # words a response-file feature (argparse fromfile_prefix_chars) would expand or refuse
+                 "@flags.rsp", "@nofile", "@"]
 
 STRATS = {"minimize": "Minimize", "minimize-around": "MinimizeSurroundingPairs", "check-only": "CheckOnly"}
 ATOMS = {"-c": "TestcaseChar", "--char": "TestcaseChar", "-l": "TestcaseLine", "-j": "TestcaseJsStr",
@@ -140,6 +142,8 @@ def run(ck: Check):
                             ("d/ppy.py", "d-ppy")):
             with open(os.path.join(work, rel), "w") as f:
                 f.write(f"MARKER = {marker!r}\ndef interesting(a, p):\n    return True\n")
+        with open(os.path.join(work, "flags.rsp"), "w") as f:
+            f.write("--char\n--strategy=check-only\n--min=4\n")
         for fn in ("t.txt", "other.txt", "x", "4", "yes.py.txt"):
             with open(os.path.join(work, fn), "w") as f:
                 f.write("a\nb\n")
@@ -168,7 +172,7 @@ def run(ck: Check):
                     continue
                 if len(strat) > 1:
                     continue
-                suffixes = [()] + [(s,) for s in SUFFIX_TOKENS[:5]]
+                suffixes = [()] + [(s,) for s in SUFFIX_TOKENS[:5] + SUFFIX_TOKENS[10:]]
                 if n <= 1:
                     suffixes += [tuple(x) for x in itertools.product(SUFFIX_TOKENS, repeat=2)][:: (3 if quick else 1)]
                 for suf in suffixes:
